@@ -47,6 +47,9 @@ pub struct PoolCase {
     pub timeout_s: u64,
     pub min_idle: usize,
     pub ops: Vec<POp>,
+    /// added to the idle timeout: library users configure any Duration, not only whole seconds
+    #[serde(default)]
+    pub timeout_extra_ms: u64,
 }
 
 /// how long the transport of a slow-closing session takes to shut down
@@ -91,7 +94,7 @@ impl Family for PoolFam {
                     1 => Just(POp::AddSlowClose),
                     1 => prop_oneof![Just(0u16), Just(1), Just(5), Just(9), Just(11), Just(15), 0u16..40].prop_map(POp::CleanupVsGet),
                 ];
-                proptest::collection::vec(op, 1..30).prop_map(move |ops| PoolCase { interval_s: i, timeout_s: t, min_idle: m, ops })
+                (proptest::collection::vec(op, 1..30), prop_oneof![3 => Just(0u64), 1 => Just(500u64), 1 => Just(900u64), 1 => Just(10u64)]).prop_map(move |(ops, timeout_extra_ms)| PoolCase { interval_s: i, timeout_s: t, min_idle: m, ops, timeout_extra_ms })
             })
             .boxed()
     }
@@ -101,7 +104,7 @@ impl Family for PoolFam {
         let res: Result<(bool, bool, bool), Fail> = run_virtual(async move {
             let case = c;
             let interval = Duration::from_secs(case.interval_s);
-            let timeout = Duration::from_secs(case.timeout_s);
+            let timeout = Duration::from_secs(case.timeout_s) + Duration::from_millis(case.timeout_extra_ms);
             let m = case.min_idle;
             let t_create = Instant::now();
             let pool = SessionPool::with_config(SessionPoolConfig { check_interval: interval, idle_timeout: timeout, min_idle_sessions: m });
@@ -341,6 +344,7 @@ impl Family for PoolFam {
         });
         let (nt_tick, nt_get, nt_race) = res?;
         out.class_if(nt_race, "request-served-during-cleanup");
+        out.class_if(case.timeout_extra_ms > 0, "fractional-second-timeout");
         out.nt(nt_tick || nt_get);
         out.class_if(nt_tick, "tick-with-expired-surplus");
         out.class_if(nt_get, "get-with-closed-entry");
